@@ -1144,6 +1144,41 @@ func c01r7(rc *core.RC) {
 		rc.Unknown("encoder.(*Mapslice).Less/key", less.Pos(), "the comparator does not read MapItem.Key")
 		return
 	}
+	// does the comparator decode the recorded text? It, or a module function it calls, looks for the quotes and the
+	// backslash of the JSON string (comparisons with '"' and '\\')
+	decodes := false
+	var scan func(fd *ast.FuncDecl, depth int)
+	seenFn := map[*ast.FuncDecl]bool{}
+	scan = func(fd *ast.FuncDecl, depth int) {
+		if fd == nil || fd.Body == nil || seenFn[fd] || depth > 2 {
+			return
+		}
+		seenFn[fd] = true
+		info := p.Info(fd)
+		quote, backslash := false, false
+		ast.Inspect(fd.Body, func(m ast.Node) bool {
+			switch x := m.(type) {
+			case *ast.BasicLit:
+				if v, ok := core.ConstInt(info, x); ok {
+					if v == '"' {
+						quote = true
+					}
+					if v == '\\' {
+						backslash = true
+					}
+				}
+			case *ast.CallExpr:
+				if f := core.Callee(info, x); f != nil && f.Pkg() != nil && f.Pkg().Path() == core.PkgPaths["encoder"] {
+					scan(p.DeclOf(f), depth+1)
+				}
+			}
+			return true
+		})
+		if quote && backslash {
+			decodes = true
+		}
+	}
+	scan(less, 0)
 	n := 0
 	for _, vm := range core.VMPkgs {
 		fd := p.Func(vm, "Run")
@@ -1172,7 +1207,9 @@ func c01r7(rc *core.RC) {
 			}
 			n++
 			key := vm + ".Run/map-sort-key"
-			if sl, ok := core.Unparen(as.Rhs[0]).(*ast.SliceExpr); ok && buf != nil && core.ObjOf(info, sl.X) == buf {
+			if sl, ok := core.Unparen(as.Rhs[0]).(*ast.SliceExpr); ok && buf != nil && core.ObjOf(info, sl.X) == buf && decodes {
+				rc.OK(key, as.Pos(), "the sort key is the encoded text of the member key, and the comparator decodes it (it locates the quotes and undoes the escape sequences) before it compares")
+			} else if ok && buf != nil && core.ObjOf(info, sl.X) == buf {
 				rc.Bad(key, as.Pos(), "the sort key of a map member is `%s`, a slice of the output buffer: members are ordered by their encoded text (closing quote, separator and escapes included), so {\"a\":1,\"a \":2} is written with \"a \" first and keys that need escaping move; encoding/json orders by the key string", core.Src(p.Fset, as.Rhs[0]))
 			} else {
 				rc.OK(key, as.Pos(), "the sort key is not a slice of the encoded output")
